@@ -579,6 +579,20 @@ where
     }
 }
 
+#[cfg(bma400_verif)]
+impl Gen1IntConfig {
+    pub(crate) fn verif_visit(&mut self, f: &mut dyn FnMut(u8, u8) -> Option<u8>) {
+        verif_visit_fields!(self, f, config0: Gen1IntConfig0, config1: Gen1IntConfig1, config2: Gen1IntConfig2, config3: Gen1IntConfig3, config31: Gen1IntConfig31, config4: Gen1IntConfig4, config5: Gen1IntConfig5, config6: Gen1IntConfig6, config7: Gen1IntConfig7, config8: Gen1IntConfig8, config9: Gen1IntConfig9);
+    }
+}
+
+#[cfg(bma400_verif)]
+impl Gen2IntConfig {
+    pub(crate) fn verif_visit(&mut self, f: &mut dyn FnMut(u8, u8) -> Option<u8>) {
+        verif_visit_fields!(self, f, config0: Gen2IntConfig0, config1: Gen2IntConfig1, config2: Gen2IntConfig2, config3: Gen2IntConfig3, config31: Gen2IntConfig31, config4: Gen2IntConfig4, config5: Gen2IntConfig5, config6: Gen2IntConfig6, config7: Gen2IntConfig7, config8: Gen2IntConfig8, config9: Gen2IntConfig9);
+    }
+}
+
 #[cfg(test)]
 mod tests {
     use super::*;
